@@ -284,7 +284,7 @@ def fragmentsNeeded (R X : List Nat) : Option (List Nat) :=
     match T.failPattern R, R with
     | .d1p0, r :: _ =>
       -- `fragments_needed_one_data_local`: the excluded data plus the fragment itself count as missing
-      let md := T.missingData X ++ [r]
+      let md := if (T.missingData X).contains r then T.missingData X else T.missingData X ++ [r]
       let mp := T.missingParity X
       match T.connectedParity r (some mp) md with
       | none => none
